@@ -16,6 +16,12 @@ CAST_STRINGS = [b'true', b'TRUE', b'False', b'fAlSe', b'truex', b'1', b'-1', b'+
                 b'9223372036854775808', b'-9223372036854775808', b'-9223372036854775809', b'18446744073709551615',
                 b'18446744073709551616', b'1.5', b'1e3', b'.5', b'5.', b'-0', b'+', b'-', b'', b' 1', b'1 ', b'inf', b'-Infinity',
                 b'nan', b'NaN', b'1e400', b'1e-400', b'0x10', b'1_0', b'1e', b'1e+', b'e5', b'.', b'12abc', b'\xef\xbc\x91']
+# numeric strings LONGER than the longest i64 / u64 literal (leading zeros, an explicit sign): still integers for the string
+# fallback of the casts (a seeded length guard of 20 bytes refused them)
+CAST_STRINGS += [b'000000000000000000000042', b'-09223372036854775808', b'+18446744073709551615', b'-000000000000000000000', b'0' * 40 + b'1',
+                 b'+' + b'0' * 19 + b'7', b'-' + b'0' * 19 + b'7', b'0' * 20, b'0' * 21, b'00000000000000000000018446744073709551615',
+                 b'00000000000000000000018446744073709551616', b'1.' + b'0' * 30, b'0.' + b'0' * 30 + b'1', b'1' + b'0' * 30, b'1e0000000000000000000002',
+                 b'0' * 25 + b'.5', b'true' + b' ' * 20]
 
 
 CAST_OPS = [op for op in SCALAR_OPS if op not in ('array_length', 'object_keys', 'object_each', 'array_values')]
